@@ -29,6 +29,7 @@ func main() {
 	verif := flag.String("verif", "/verif", "verification directory (evidence, known findings)")
 	noControls := flag.Bool("nocontrols", false, "skip positive/negative controls")
 	selftest := flag.Bool("selftest", false, "run every control of the selected properties and fail if any control fails")
+	variants := flag.Bool("variants", false, "also run the independently written variants under seeded/ and refactors/ as controls (always on in the thorough tier)")
 	list := flag.Bool("list", false, "list properties with a check")
 	explain := flag.String("explain", "", "print a replay file")
 	dump := flag.Bool("dump", false, "print all obligations")
@@ -193,6 +194,11 @@ func main() {
 		for _, s := range specs {
 			for _, c := range s.Controls {
 				if *tier == "thorough" || *selftest || c.Quick {
+					jobs = append(jobs, job{s, c})
+				}
+			}
+			if *tier == "thorough" || *variants {
+				for _, c := range core.VariantControls(*verif, s) {
 					jobs = append(jobs, job{s, c})
 				}
 			}
